@@ -211,6 +211,33 @@ def run(ctx):
                     continue
                 for i in np.where(got.view(np.int64) != base.view(np.int64))[0][:5]:
                     ctx.violation("forms_agree", {"kind": kind, key: float(xs[i]), "module": mname, "form": form}, base[i], got[i])
+    # numpy's floating-point error state belongs to the caller: with every error class set to 'raise' the functions still
+    # return the same values (lanes that are computed and then discarded must not trip it); subnormal pressures, whose
+    # quotient P_b/P genuinely overflows, are left out
+    zs_e = np.concatenate([zs, [np.inf]])
+    ps_e = np.concatenate([ps[ps >= 1e-300], [0.0]])
+    for mname, mod in mods.items():
+        for fn, xs, kind, key in (("us_std_atm_pressure_from_altitude", zs_e, "zerr", "z"), ("us_std_atm_altitude_from_pressure", ps_e, "perr", "p")):
+            base = _call(mod, fn, xs, "1d")
+            for form in ("1d", "float"):
+                ctx.tick(len(xs), ("errstate", mname, key, form))
+                try:
+                    with np.errstate(all="raise"):
+                        got = _call(mod, fn, xs, form)
+                except FloatingPointError as ex:
+                    # locate one offending point
+                    bad = None
+                    for x in xs:
+                        try:
+                            with np.errstate(all="raise"):
+                                _call(mod, fn, [x], form)
+                        except FloatingPointError:
+                            bad = float(x)
+                            break
+                    ctx.violation("independent_of_numpy_error_state", {"kind": kind, key: bad if bad is not None else float(xs[-1]), "module": mname, "form": form, "batch": bad is None}, "the value returned under the default error state", f"FloatingPointError: {ex}")
+                    continue
+                for i in np.where(got.view(np.int64) != base.view(np.int64))[0][:3]:
+                    ctx.violation("independent_of_numpy_error_state", {"kind": kind, key: float(xs[i]), "module": mname, "form": form}, base[i], got[i])
     ctx.sample({"z": float(zb[1]), "P": float(A.us_std_atm_pressure_from_altitude(zb[1])), "what": "layer boundary 2"})
     k = int(ctx.rng.integers(len(z)))
     ctx.sample({"z": float(z[k]), "P": float(ref_P[k]), "z_back": float(ref_zr[k])})
@@ -267,6 +294,18 @@ def replay(case):
             out.append(("modules_agree", res[0], res[1]))
     elif k == "ends":
         out += _ends(mods[names[0]], case["form"])
+    elif k in ("zerr", "perr"):
+        fn = "us_std_atm_pressure_from_altitude" if k == "zerr" else "us_std_atm_altitude_from_pressure"
+        x = case["z"] if k == "zerr" else case["p"]
+        xs = [x] if not case.get("batch") else [1.0, x]
+        a = _call(mods[names[0]], fn, xs, "1d")
+        try:
+            with np.errstate(all="raise"):
+                b = _call(mods[names[0]], fn, xs, case["form"])
+        except FloatingPointError as ex:
+            return [("independent_of_numpy_error_state", "the value returned under the default error state", f"FloatingPointError: {ex}")]
+        if a.tobytes() != b.tobytes():
+            out.append(("independent_of_numpy_error_state", a.tolist(), b.tolist()))
     elif k in ("zdtype", "pdtype"):
         fn = "us_std_atm_pressure_from_altitude" if k == "zdtype" else "us_std_atm_altitude_from_pressure"
         x = [case["z"] if k == "zdtype" else case["p"]]
